@@ -811,6 +811,7 @@ func litestream.(*DB).checkpointIfNeeded(db, ctx, exec, origWALSize, newWALSize)
   ensures [C13.trigger-min] ps != 0 && !exceedsTrunc(ps, tn, origWALSize) && newWALSize >= walsz(ps, mn) && newWALSize > walsz(ps, 1) ==> ck_n == old(ck_n) + 1 && ck_mode == litestream.CheckpointModePassive
   ensures [C13.time] ps != 0 && !exceedsTrunc(ps, tn, origWALSize) && newWALSize < walsz(ps, mn) && ck_n > old(ck_n) ==> old(exec.state.syncedSinceCheckpoint) && old(db.CheckpointInterval) > 0 && newWALSize > walsz(ps, 1) && ck_n == old(ck_n) + 1 && ck_mode == litestream.CheckpointModePassive
   ensures [C13.idle] 0 <= mn && mn < 4294967296 && !exceedsTrunc(ps, tn, origWALSize) && !old(exec.state.syncedSinceCheckpoint) && newWALSize <= walsz(ps, 1) ==> ck_n == old(ck_n)
+  ensures [C13.idle-truncate] exceedsTrunc(ps, tn, origWALSize) && !old(exec.state.syncedSinceCheckpoint) && newWALSize <= walsz(ps, 1) && origWALSize <= walsz(ps, 1) ==> ck_n == old(ck_n)
   ensures [C13.zero-pagesize] ps == 0 ==> ck_n == old(ck_n)
 
 ghost c13_exec Bool
